@@ -23,7 +23,7 @@ REQUIRED = [
     "backend.generic", "backend.sse2", "backend.avx2", "backend.auto", "alphabet.protein", "reuse.increasing",
     "reuse.decreasing", "pseudocount.dict", "pseudocount.dict_with_wildcard_key", "background.wildcard_key", "background.nonuniform", "background.zero_entries", "base.non2",
     "pvalue.meme", "pvalue.tfmpvalue", "pvalue.rc_after_cached_distribution", "pvalue.wildcard_weighted_background", "load.path", "load.bytesio",
-    "load.short_reads", "load.jaspar", "load.jaspar16", "load.transfac", "load.uniprobe", "scan.hits>0",
+    "load.short_reads", "errors.invalid_symbol_in_long_text", "scan.lone_hit_in_last_row_of_odd_block", "load.jaspar", "load.jaspar16", "load.transfac", "load.uniprobe", "scan.hits>0",
 ]
 
 lightmotif = None
@@ -378,6 +378,43 @@ def family_scan(rep, case, rng):
         if must:
             rep.cover("scan.hits>0")
             rep.nontrivial("scan", text, w, t, b, backend)
+    # targeted: a hit that is alone in the LAST row of a block with an odd number of rows (the block
+    # maximum decides whether the block is looked at in detail)
+    nrows = (length + 31) // 32
+    if exact and nrows >= 3:
+        nvalid = len(exact)
+        row_best = [R.NEG_INF] * nrows
+        row_arg = [None] * nrows
+        for i in range(nvalid):
+            r_ = i % nrows
+            if exact[i][0] > row_best[r_]:
+                row_best[r_], row_arg[r_] = exact[i][0], i
+        found = None
+        sizes = [3, 5, 7, 9, 33, 255, 257]
+        rng.shuffle(sizes)
+        for b in sizes:
+            for start in range(0, nrows, b):
+                end = min(start + b, nrows)
+                if (end - start) % 2 == 1 and end - start >= 3 and row_arg[end - 1] is not None:
+                    others = max(row_best[start:end - 1])
+                    if row_best[end - 1] > others + 0.5 and row_best[end - 1] > R.NEG_INF:
+                        found = (b, row_arg[end - 1], (row_best[end - 1] + max(others, row_best[end - 1] - 1.0)) / 2.0)
+                        break
+            if found:
+                break
+        if found:
+            b, pos, t = found
+            t = R.f32(t)
+            rep.eval()
+            rep.cover("scan.lone_hit_in_last_row_of_odd_block")
+            wit = dict(length=length, width=w, threshold=t, block_size=b, backend=None, sequence=text[:80], target=pos)
+            ok, hits = call(rep, case, "scan", lambda: [h.position for h in lightmotif.scan(pssm, striped, threshold=t, block_size=b)], wit)
+            if not ok:
+                rep.violate("c17.scan.error", case, "scan raised %r" % (hits,), wit)
+                return
+            if exact[pos][0] >= t + R.tol(w, exact[pos][1]) and pos not in hits:
+                rep.violate("c17.scan.missing", case, "position %d (alone in the last row of an odd block of size %d) scores %r >= %r but was not yielded" % (pos, b, exact[pos][0], t), wit)
+                return
     # protein scanner is not supported: ordinary exception
     ok, err = call(rep, case, "scan(protein)", lambda: lightmotif.scan(make_pssm(rng, 3, True)[0], lightmotif.stripe("ACDE", protein=True)))
     if ok or not isinstance(err, ValueError):
@@ -648,6 +685,19 @@ def family_errors(rep, case, rng):
         ("load(text mode file)", lambda: list(lightmotif.load(io.StringIO(">x\n"), format="jaspar16")), TypeError),
         ("Scanner(alphabet mismatch)", lambda: lightmotif.scan(lightmotif.create(["ACGT"]).pssm, lightmotif.stripe("ACDE", protein=True)), ValueError),
     ]
+    # an invalid symbol anywhere in a long text (every 32-byte block and the tail), both alphabets
+    for protein in (False, True):
+        alphabet = PROTEIN if protein else DNA
+        n = rng.choice([64, 65, 96, 130, 200, 257])
+        base = rand_seq(rng, alphabet, n, wild=0.02)
+        bad_ch = rng.choice(["J", "O", "U", "x", ".", "\x00"] if protein else ["X", "U", "a", ".", "\x00", "\x7f"])
+        for pos in sorted(set([0, 31, 32, 33, 63, 64, n - 33, n - 32, n - 1, rng.randrange(n), rng.randrange(32, n)])):
+            if not (0 <= pos < n):
+                continue
+            text = base[:pos] + bad_ch + base[pos + 1:]
+            checks.append(("stripe(invalid %r at %d of %d, protein=%s)" % (bad_ch, pos, n, protein), (lambda t=text, pr=protein: lightmotif.stripe(t, protein=pr)), ValueError))
+            checks.append(("EncodedSequence(invalid %r at %d of %d, protein=%s)" % (bad_ch, pos, n, protein), (lambda t=text, pr=protein: lightmotif.EncodedSequence(t, protein=pr)), ValueError))
+        rep.cover("errors.invalid_symbol_in_long_text")
     for what, f, exc in checks:
         rep.eval()
         try:
